@@ -46,12 +46,31 @@ PROVED = ['decompose_refuses [P]: p | (O : Z[theta]) => Panic other (the documen
           'decompose_no_panic [P]: p prime, f monic, b the stored basis of an order containing Z[theta] with its table, both profiles, every draw stream: the index '
           'computation returns; p | index => the documented panic; otherwise decompose returns or the model runs out of the fuel of the randomised loop of the '
           'factoriser -- never a panic (assert!(is_integer) of to_z_basis_int, the debug assertions of with_expr / principal / Add, every index and unwrap)',
+          'product_below_p [P]: hypotheses of prime_above_proper (no maximality): ideal_product -- the unit ideal multiplied by every P_i, e_i times, with the model\'s '
+          'Ideal::principal and Mul (a definition of the proof development) -- returns in both profiles a lattice in normal form all of whose members are p * w: '
+          'prod P_i^e_i is inside p O (true also on Z[sqrt 5] at 2)',
+          'product_equals_p_unramified [P]: same hypotheses, every e_i = 1: prod P_i IS p O: ideal_product returns the very ideal Ideal::principal returns on p, '
+          'its norm is p^n, its members are exactly the p * w (Chinese remainder: the P_i are pairwise comaximal)',
+          'product_equals_p_dedekind [C]: same hypotheses: prod P_i^e_i = p O (same conclusion) whenever the boolean dedekind_flag is true: with '
+          'h = (f - prod g_i^e_i)/p in Z[x], no g_i with e_i >= 2 divides h modulo p (evaluated with the model\'s poly_mod / poly_divrem); the flag is true when no e_i > 1',
+          'product_equals_p_maximal [P]: the product formula of Kummer-Dedekind, ramified primes included: hypotheses of prime_above_proper + is_order f n b '
+          '(C06: stored lower triangular basis, contains 1, get_mult_table returns) + p_maximal f n p b (C06: p divides the index of b in no over-order; equivalently the '
+          'Round 2 step at p returns howmany = 0): ideal_product returns (no panic, both profiles) the ideal principal returns on p, norm p^n, members exactly p * w. '
+          'Proof: p-maximal => Round 2 step returns 0 => every multiplier of the p-radical I_p into p I_p lies in p O; I_p = L(prod g_i); a repeated g_i dividing h mod p '
+          'would give the multiplier (f / g_i)(theta) outside p O; so Dedekind\'s criterion holds and p lies in every partial product',
+          'dedekind_necessary [P]: under the hypotheses of product_equals_p_maximal the boolean dedekind_flag evaluates to true on the factors of the run '
+          '(Dedekind\'s criterion is necessary for p-maximality; poly_mod / poly_divrem do not panic there)',
+          'decompose_integral_basis [P]: the pipeline: for every monic f (degree deg >= 1, 2 deg < 2^64, non-zero discriminant of < 2^64 bits; both profiles) '
+          'find_integral_basis returns O, get_mult_table its table t, and for EVERY prime p, every draw stream: whenever decompose md f O t p returns, every P_i is a proper '
+          'prime ideal with P_i meet Z = pZ, the P_i are pairwise distinct, norm P_i = p^(deg g_i), sum e_i deg g_i = deg, and prod P_i^e_i = p O (principal(p), norm p^deg). '
+          'No hypothesis on the order is left: p-maximality from C06 find_integral_basis_p_maximal, first row (1,0..0) (order_first_row), Z[theta] inside O (monic_contains_power_basis)',
           ]
-NOT_PROVED = ['prod P_i^e_i = (p) (the product formula of the Kummer-Dedekind theorem) -- oracle on every case. It needs the hypothesis that the order is maximal at p, '
-              'which none of the theorems has: on Z[sqrt 5], p = 2 (index 1) the model and the code return P = (2, 1 + sqrt 5), e = 2 with P^2 <> (2) (Example ex_product_needs_maximal). '
-              'Proved of the P_i: ideal above p (above_p), '
-              'proper with P_i meet Z = pZ (prime_above_proper), prime ideal (primes_prime), pairwise distinct and comaximal (primes_distinct, primes_comaximal), '
-              'norm P_i = p^(deg g_i) and sum e_i deg g_i = n (residue_degrees)',
+NOT_PROVED = ['prod P_i^e_i = (p) for an order that is NOT known to be p-maximal and a ramified prime whose Dedekind flag is false: there the formula is false in general '
+              '(Z[sqrt 5], p = 2: P = (2, 1 + sqrt 5), e = 2, P^2 = (4, 2 + 2 sqrt 5) <> (2): Examples ex_product_needs_maximal, ex_flag_false_Zs5); proved instead: '
+              'containment in p O always (product_below_p), equality for unramified p, under the Dedekind flag, and on every p-maximal order (product_equals_p_maximal), '
+              'hence for everything find_integral_basis returns on monic f (decompose_integral_basis). The oracle still checks the product on every case',
+              'the converse of Dedekind\'s criterion (dedekind_flag true => the order is p-maximal); the necessity is dedekind_necessary',
+              'non-monic f (the model panics in trivial_order_monic unless f is monic; C17 is about monic minimal polynomials)',
               'termination of the Cantor-Zassenhaus loop (probability 1 only, C08): decompose_no_panic leaves the alternative OutOfFuel of the model',
               'no Panic for p >= 2^64: refuted on the unchanged tree (D4), fixed in /repo; covered by the p = nextprime(2^64) cases']
 ASSUMPTIONS = ['the maximal orders are inputs (stored bases from the implementation\'s find_integral_basis, property C06)',
@@ -63,12 +82,13 @@ CLAIM = dict(
     text='For all inputs and all draw streams: p | index => the documented panic and nothing returned (decompose_refuses); every returned ideal lies above p '
          '(above_p). For p prime, f monic, the table of an order with w_0 = 1 containing Z[theta], any index prime to p: the (g_i, e_i) behind the returned (P_i, e_i) '
          'are the output of factorize_mod_p on the same draws and sum e_i deg g_i = n (degree_sum, unconditional); every P_i is proper with cap_z P_i = p '
-         '(prime_above_proper); every P_i is a prime ideal of the order (primes_prime); the P_i are pairwise distinct and comaximal (primes_distinct, primes_comaximal); for a lower triangular stored basis norm P_i = p^(deg g_i) (residue_degrees); on such inputs decompose never panics when p does not divide the index (decompose_no_panic). decompose_full, the run with the factor kept beside each ideal, is a definition of the '
+         '(prime_above_proper); every P_i is a prime ideal of the order (primes_prime); the P_i are pairwise distinct and comaximal (primes_distinct, primes_comaximal); for a lower triangular stored basis norm P_i = p^(deg g_i) (residue_degrees); on such inputs decompose never panics when p does not divide the index (decompose_no_panic). The product of the returned ideals, computed with the model\'s principal and Mul (ideal_product), lies in p O (product_below_p); it IS p O -- the ideal principal returns on p, norm p^n -- when p is unramified (product_equals_p_unramified), when the boolean Dedekind flag holds (product_equals_p_dedekind), and whenever the order is p-maximal in the sense of C06 (product_equals_p_maximal). For the order returned by find_integral_basis on a monic f all hypotheses on the order are discharged: for every prime p the returned P_i are prime, distinct, of norm p^(deg g_i), sum e_i f_i = n and prod P_i^e_i = p O (decompose_integral_basis). decompose_full, the run with the factor kept beside each ideal, is a definition of the '
          'proof development proved to project onto decompose outcome by outcome (companion_projection). The model (coq/Model/PrimeDecomp.v) reproduces simple::decompose '
          'statement by statement: the index test with the documented panic, the conversion of p to usize (0 when it does not fit), factorize_mod_p on the logged draw '
          'stream, and per factor the degree branch, to_z_basis_int, the two principal ideals and their sum.',
-    note='the product formula prod P_i^e_i = (p) is checked by the independent oracle on every explored input, not proved '
-         '(Kummer-Dedekind); that the order contains Z[theta] (an integer matrix Sl with Sl * b = identity) is a hypothesis of prime_above_proper / primes_prime / primes_distinct / primes_comaximal',
+    note='the product formula is proved under p-maximality (or the Dedekind flag, or e_i = 1); without such a hypothesis it is false (Z[sqrt 5], p = 2) and only the '
+         'containment in p O is proved; the oracle checks the product on every explored input; ideal_product and decompose_full are definitions of the proof development '
+         'built from the model\'s own principal / Mul / decompose_factor; that the order contains Z[theta] (an integer matrix Sl with Sl * b = identity) is a hypothesis of prime_above_proper / primes_prime / primes_distinct / primes_comaximal',
     ref='DESIGN.md section 4, C17')
 
 # ---------------------------------------------------------------- oracle
